@@ -86,12 +86,18 @@ func (cr *chunkedReader) Read(b []uint8) (n int, err error) {
 	}
 	n, cr.err = cr.r.Read(b)
 	cr.n -= uint64(n)
+	if cr.n > 0 && cr.err == io.EOF {
+		// the stream ends in the middle of a chunk
+		cr.err = io.ErrUnexpectedEOF
+	}
 	if cr.n == 0 && cr.err == nil {
 		// end of chunk (CRLF)
 		if _, cr.err = io.ReadFull(cr.r, cr.buf[:]); cr.err == nil {
 			if cr.buf[0] != '\r' || cr.buf[1] != '\n' {
 				cr.err = errors.New("malformed chunked encoding")
 			}
+		} else if cr.err == io.EOF {
+			cr.err = io.ErrUnexpectedEOF
 		}
 	}
 	return n, cr.err
@@ -179,7 +185,13 @@ func (cw *chunkedWriter) Close() error {
 }
 
 func parseHexUint(v []byte) (n uint64, err error) {
-	for _, b := range v {
+	if len(v) == 0 {
+		return 0, errors.New("empty hex number for chunk length")
+	}
+	for i, b := range v {
+		if i == 16 {
+			return 0, errors.New("http chunk length too large")
+		}
 		n <<= 4
 		switch {
 		case '0' <= b && b <= '9':
